@@ -307,6 +307,7 @@ fn random_seq(rng: &mut Rng, len: usize, naddr: usize) -> Seq {
 }
 
 pub fn run(ctx: &Ctx, out: &mut Out) {
+    crate::inproc::install_shard_logger(ctx.shard, out);
     let mut rng = ctx.rng("C17");
     if let Some(r) = &ctx.replay {
         out.case(1, true);
